@@ -54,7 +54,8 @@ def envelope_call(P: Project, fi: FuncInfo, call: ast.Call, depth: int = 0) -> O
             if expr.id in target.params():
                 return d if d is not None else ast.Name(id=f"<unbound:{expr.id}>", ctx=ast.Load())
             # a local of the wrapper: look at its single assignment
-            assigns = [s for s in walk_local(target.node) if isinstance(s, ast.Assign) and any(isinstance(t, ast.Name) and t.id == expr.id for t in s.targets)]
+            assigns = [s for s in walk_local(target.node) if (isinstance(s, ast.Assign) and any(isinstance(t, ast.Name) and t.id == expr.id for t in s.targets))
+                       or (isinstance(s, ast.AnnAssign) and isinstance(s.target, ast.Name) and s.target.id == expr.id and s.value is not None)]
             if len(assigns) == 1:
                 return assigns[0].value if not isinstance(assigns[0].value, ast.Name) else through(assigns[0].value)
             return expr
